@@ -150,16 +150,28 @@ class Real:
         s = S()
         self.h = s["atom"].Atom(s["make-hierarchy"]())
         self.mf = s["multifn"].MultiFunction(s["sym"].symbol("vmf"), lambda v: v, s["default"], self.h)
+        self.gen = {}
 
     def add(self, idx):
         s = S()
         key = s["default"] if idx < 0 else s["DVALS"][idx]
-        self.mf.add_method(key, (lambda tag: (lambda v: ("method", tag) if tag >= 0 else ("default",)))(idx))
+        # every (re-)definition installs a new body, told apart by a generation number: the body that answers a call
+        # must be the one most recently given to its dispatch value (a re-defmethod replaces the old body for every
+        # dispatch value that resolves to it, also for values whose resolution was cached by earlier calls)
+        gen = self.gen[idx] = self.gen.get(idx, 0) + 1
+        self.mf.add_method(key, (lambda tag, g: (lambda v: ("method", tag, g) if tag >= 0 else ("default", g)))(idx, gen))
+
+    gen: dict = {}
 
     def call(self, v):
         s = S()
         try:
-            return self.mf(s["DVALS"][v])
+            r = self.mf(s["DVALS"][v])
+            tag = r[1] if r[0] == "method" else -1
+            if r[-1] != self.gen.get(tag):
+                raise Violation("stale-method-body-invoked", None,
+                                f"dispatch value #{v} was answered by body generation {r[-1]} of method {tag}, but that method was last defined as generation {self.gen.get(tag)}")
+            return r[:-1]
         except NotImplementedError:
             return ("no-method",)
         except s["runtime"].RuntimeException as e:
